@@ -77,7 +77,7 @@ func runC05(env *Env, data map[string]any) *Outcome {
 		o.Nontrivial = true
 		return o
 	}
-	res := runCommand(env, c.Text, c.Cfg, c.Now, c.Cmd, 1)
+	res := runCommand(env, c.Text, c.Cfg, c.Now, c.Cmd, cpusFor(c.Text))
 	model := modelCommand(env, c.Text, c.Cfg, c.Now, c.Cmd)
 	if res.Outcome != model {
 		o.Findings = append(o.Findings, Finding{Kind: "K", What: "K.C05.cmd: outcome of `klog " + c.Cmd.Kind + "` differs from the model", Impl: short(res.Outcome, 3000) + " | " + short(res.Err, 200), Model: short(model, 3000)})
